@@ -15,9 +15,9 @@ RULE = ('histories of 8-40 operations over a growing table of related stream obj
         'copy_thermal_condition, copy_phase, mix_from with and without energy balance, reset_cache, property-package '
         'reset between three packages of which two share the Chemicals object and differ only in their property functions); '
         'reads of the per-chemical volumetric flows `vol` (through indexer.by_volume and the _data_cache dict, with stub '
-        'Chemical.V handles that depend on phase and T) are interleaved as well; one case in eight is scripted: two streams in '
+        'Chemical.V handles that depend on phase and T) are interleaved as well; one case in four is scripted: two streams in '
         'different phases linked with partial flag combinations and vol read on both in either order, or a stream and its '
-        'copy / flow proxy / proxy / phase view diverging with the same properties read on both sides back to back, or material moved between the phases of a MultiStream (directly or through its '
+        'copy / flow proxy / proxy / phase view diverging with the same properties read on both sides back to back, or a MultiStream with phase views reduced to one phase and made multi-phase again, or the first read after a state change raising inside the property package, or material moved between the phases of a MultiStream (directly or through its '
         'phase views) at constant T, P and bit-identical overall composition, or a switch between the two packages sharing '
         'their Chemicals, each with the same properties read before and after; the property package is a stub Mixture whose values are an affine dyadic function, with phase-dependent composition weights, of '
         '(package, name, phase, composition, T, P), so a stale value is always visible; executed on the real classes and on '
@@ -25,7 +25,9 @@ RULE = ('histories of 8-40 operations over a growing table of related stream obj
         'snapshot of every object (class, phases, flows, T, P, memo contents, which objects share memo dict / key / '
         'thermal condition / flow row / indexer) are compared (values to 1e-9 relative, structure exactly). '
         'non-trivial = at least one read returned a value after a mutation; distinct = distinct case hash')
-ASSUMPTIONS = ['C14_vol_fresh holds on histories in which MultiStreams that link flows and T/P have the same phase tuple (run_adm); '
+ASSUMPTIONS = ['the property-package functions are partial: they may raise (stub: kappa and mu raise RuntimeError at T = 384 K); '
+               'the exception reaches the caller, which catches it and continues the history',
+               'C14_vol_fresh holds on histories in which MultiStreams that link flows and T/P have the same phase tuple (run_adm); '
                'link_with does not check this and leaves _phases and data.rows of different lengths otherwise',
                'the property-package functions are deterministic functions of (phase, composition, T, P) that respect numeric '
                'equality of their arguments (calc1_ext / calcx_ext); nothing else is assumed about them',
@@ -68,6 +70,8 @@ def env():
         def __init__(self, MWs, pkg):
             self.MWs = MWs; self.pkg = pkg; self.include_excess_energies = False; self._free_energy_args = {}
         def _calc(self, name, phase, z, T, P):
+            if name in (4, 5) and T == 384.:
+                raise RuntimeError(f'{NAMES[name]} model is not valid at T={T} K')     # a model outside its validity range
             z = z.to_array() if hasattr(z, 'to_array') else np.asarray(z, float)
             a = A[self.pkg]
             return W[name] * (3. * (name + 1) + 7. * self.pkg + (5. * (PH[phase] + 1) if phase is not None else 0.)
@@ -233,7 +237,7 @@ def scripted_link(rng, derived=False):
     if rng.random() < 0.4:
         ops += [['rvol', rng.randrange(2)]]
     flags = rng.choice([(True, False, True), (True, False, True), (True, True, True), (True, False, False), (False, False, True),
-                        (True, True, False), (False, True, True)])
+                        (True, True, False), (False, True, True), (True, False, True), (True, False, True)])
     ops.append(['link', 0, 1, flags[0], flags[1], flags[2]])
     def reads():
         out = []
@@ -294,8 +298,67 @@ def scripted_nested(rng, derived=False):
         ops.append(gen_op(rng, derived))
     return {'ops': ops}
 
+def scripted_raise(rng, derived=False):
+    """error path: properties are cached in one state, the state changes, and the first read in the new state is of a
+    property whose model raises there (the caller catches it); the cached properties are then read again"""
+    new = gen_new(rng)
+    for r in new[1]: r[rng.randrange(3)] = float(rng.choice([1, 2, 3]))
+    hot = rng.random() < 0.4
+    new[3] = 384. if hot else rng.choice([256., 300., 320.])
+    ops = [new]
+    targets = [0]
+    if len(new[1]) > 1 and rng.random() < 0.5:
+        ops.append(['view', 0, rng.choice(new[2])]); targets.append(1)
+    if rng.random() < 0.3:
+        ops.append(['proxy', 0]); targets.append(len(targets))
+    safe = ['H', 'h', 'S', 'C', 'Cn', 'V'] + (['rho', 'F_vol'] if derived else [])
+    names = rng.sample(safe, rng.randint(2, 3))
+    ops += [['read', t, n] for t in targets for n in names]
+    if hot:
+        ops.append(rng.choice([['setP', 0, rng.choice(PS)], ['scale', 0, 2.0], ['setflow', 0, rng.choice(new[2]), rng.randrange(3), float(rng.choice([4, 8, F(1, 2)]))]]))
+    else:
+        ops.append(['setT', 0, 384.])
+    ops.append(['read', rng.choice(targets), rng.choice(['mu', 'kappa'])])
+    ops += [['read', t, n] for t in targets for n in names]
+    if rng.random() < 0.5:
+        ops += [['setT', 0, rng.choice([256., 300.])], ['read', 0, rng.choice(['mu', 'kappa'])]] + [['read', t, n] for t in targets for n in names]
+    for _ in range(rng.randint(0, 5)):
+        ops.append(gen_op(rng, derived))
+    return {'ops': ops}
+
+def scripted_roundtrip(rng, derived=False):
+    """a MultiStream whose phase views exist is reduced to one phase and made multi-phase again (or has its phase set
+    changed); the views handed out afterwards are read, and flows are edited through the stream and through the views"""
+    phases = rng.choice(PHASE_SETS)
+    rows = [[float(rng.choice([0, 1, 2, 3, F(1, 2)])) for _ in range(3)] for _ in phases]
+    rows[0][0] = 1.
+    ops = [['new', rows, phases, rng.choice(TS), rng.choice(PS), 0]]
+    for p in rng.sample(phases, rng.randint(1, len(phases))):
+        ops.append(['view', 0, p])
+    ops += [['read', rng.randrange(1, len(ops)), rng.choice(PHASE_PROPS)] for _ in range(2)]
+    back = rng.choice(PHASE_SETS)
+    ops.append(rng.choice([['setphase', 0, rng.choice(PHS)], ['setphases', 0, rng.choice(PHS)], ['setphases', 0, back]]))
+    if rng.random() < 0.5:
+        ops.append(['setflow', 0, rng.choice(PHS), rng.randrange(3), float(rng.choice([1, 4, 8]))])
+    ops.append(['setphases', 0, back])
+    for p in back:
+        ops.append(['view', 0, p])
+    ops.append(['setflow', 0, rng.choice(back), rng.randrange(3), float(rng.choice([2, 3, 8, F(1, 4)]))])
+    n = len([o for o in ops if o[0] in ('new', 'view')])
+    for _ in range(4):
+        t = rng.randrange(n + 2)
+        ops.append(rng.choice([['read', t, rng.choice(list(PROPS) + (DERIVED if derived else []))], ['rvol', t]]))
+    ops.append(['setflow', rng.randrange(1, n + 2), 'g', rng.randrange(3), float(rng.choice([5, 6, 7]))])
+    for _ in range(4):
+        t = rng.randrange(n + 2)
+        ops.append(rng.choice([['read', t, rng.choice(PHASE_PROPS)], ['rvol', t]]))
+    for _ in range(rng.randint(0, 4)):
+        ops.append(gen_op(rng, derived))
+    return {'ops': ops}
+
 def gen_scripted(rng, derived=False):
-    return rng.choice([scripted_transfer, scripted_package_switch, scripted_link, scripted_pair, scripted_nested])(rng, derived)
+    return rng.choice([scripted_transfer, scripted_package_switch, scripted_link, scripted_pair, scripted_nested, scripted_raise,
+                       scripted_roundtrip])(rng, derived)
 
 DEFECT_5STEP = {'ops': [['new', [[1., 3., 0.]], 'l', 300., 101325., 0], ['proxy', 0], ['read', 0, 'h'], ['setT', 0, 320.],
                         ['read', 1, 'h'], ['setT', 0, 300.], ['read', 0, 'h']]}
@@ -304,11 +367,28 @@ DEFECT_5STEP = {'ops': [['new', [[1., 3., 0.]], 'l', 300., 101325., 0], ['proxy'
 ADM_NEEDED = {'ops': [['new', [[1., 2., 0.], [0., 1., 4.]], 'gl', 300., 101325., 0], ['new', [[2., 0., 1.], [3., 1., 0.]], 'ls', 320., 65536., 0],
                       ['link', 0, 1, True, False, True], ['rvol', 1], ['rvol', 0]]}
 CORPUS = [DEFECT_5STEP, ADM_NEEDED]
+# the same history as a witness for the direct oracle (`strict_links`: do not exclude mislinked MultiStreams); it is
+# replayed as a known finding once the integrator has listed the key in known_findings.txt
+ADM_KEY = 'C14:link-multistream-phase-tuples'
+# MultiStream.unlink() / link_with() rebind the stream's data (and T/P) but leave the cached phase views on the old rows
+# and the old ThermalCondition: ms[phase] keeps returning a view of the former state
+DETACHED_KEY = 'C14:phase-views-detached-by-link-unlink'
+DETACHED = {'ops': [['new', [[1., 0., 2.], [0., 1., 0.]], 'gl', 300., 101325., 0], ['view', 0, 'l'], ['unlink', 0],
+                    ['setflow', 0, 'l', 0, 5.], ['read', 1, 'H']], 'strict_links': True}
 WITNESSES = []
+try:
+    from vf import load_known
+    _known = load_known()
+    if (ID, ADM_KEY) in _known:
+        WITNESSES.append({'key': ADM_KEY, 'case': dict(ADM_NEEDED, strict_links=True)})
+    if (ID, DETACHED_KEY) in _known:
+        WITNESSES.append({'key': DETACHED_KEY, 'case': DETACHED})
+except Exception:
+    pass
 
 def gen_cases(rng, tier):
     n = 300 if tier == 'quick' else 3000
-    return [gen_scripted(rng) if k % 8 == 0 else gen_history(rng) for k in range(n)]
+    return [gen_scripted(rng) if k % 4 == 0 else gen_history(rng) for k in range(n)]
 
 def search_cases(rng, tier):
     n = 200 if tier == 'quick' else 2000
@@ -581,6 +661,9 @@ def oracle(case):
     their source.  This bookkeeping is done here and does not look at the stream's own `_thermo`."""
     e = env(); tmo = e['tmo']; thermos = e['thermos']
     objs, pkg, parent = [], [], []
+    mislinked = set()       # indexers of MultiStreams linked (flows and T/P) to a MultiStream with another phase tuple
+    detached = set()        # phase views left behind by link_with / unlink of their MultiStream (listed finding)
+    strict = case.get('strict_links', False)
     for step_no, op in enumerate(case['ops']):
         try:
             rop, act = resolve(objs, op)
@@ -593,27 +676,58 @@ def oracle(case):
             th = thermos[pkg[i]]
             if not (is_multi(s) == isinstance(s, tmo.MultiStream)) or s._imol._chemicals is not th.chemicals:
                 continue            # object left inconsistent by an earlier raise / package reset of an indexer it shares
-            if is_multi(s) and len(s._imol._phases) != len(s._imol.data.rows):
-                continue            # link_with between MultiStreams with different phase tuples
+            if is_multi(s) and (len(s._imol._phases) != len(s._imol.data.rows) or (id(s._imol) in mislinked and not strict)):
+                continue            # link_with between MultiStreams with different phase tuples (outside run_adm)
+            # the read is performed in any case (a read that raises is part of the history: the caller catches it)
+            # a phase view that its MultiStream still hands out (ms[phase] is the view) must describe the MultiStream's
+            # current row for that phase and its current T, P: the reference stream is built from the owner's state
+            ref = s
+            j = parent[i]
+            if j is not None and not is_multi(s) and (strict or id(s) not in detached):
+                owner = objs[j]
+                ph = s._imol._phase._phase
+                if (is_multi(owner) and isinstance(owner, tmo.MultiStream) and getattr(owner, '_streams', {}).get(ph) is s
+                        and ph in owner._imol._phases and len(owner._imol._phases) == len(owner._imol.data.rows)
+                        and (strict or id(owner._imol) not in mislinked)):
+                    ref = tmo.Stream(None, flow=owner._imol.data.rows[owner._imol._phases.index(ph)].to_array(), phase=ph,
+                                     T=owner.T, P=owner.P, thermo=th)
             try:
-                want = getattr(fresh_like(s, th), name)
+                want = getattr(fresh_like(ref, th), name)
                 want = want.to_array() if hasattr(want, 'to_array') else want
-            except Exception:
-                continue
+                want_exc = None
+            except Exception as ex:
+                want, want_exc = None, type(ex).__name__
             try:
                 got = getattr(s, name)
                 got = got.to_array() if hasattr(got, 'to_array') else got
             except Exception as ex:
-                return f'read {name}: raises {type(ex).__name__} at step {step_no} while a fresh stream in the same state returns {want!r}'
+                if want_exc is None:
+                    return f'read {name}: raises {type(ex).__name__} at step {step_no} while a fresh stream in the same state returns {want!r}'
+                continue
+            if want_exc is not None:
+                if want_exc == 'RuntimeError':
+                    return (f'read {name}: stale value at step {step_no}: stream returns {got!r} while a fresh stream with the same '
+                            f'flows, phase, T={s.T}, P={s.P} raises {want_exc}')
+                continue
             if not close(got, want):
                 return (f'read {name}: stale value at step {step_no}: stream returns {got!r}, a fresh stream with the same '
                         f'flows, phase, T={s.T}, P={s.P} and package {pkg[i]} returns {want!r}')
             continue
+        k = op[0]
+        if k == 'link' and objs:
+            a, b = objs[op[1] % len(objs)], objs[op[2] % len(objs)]
+            if is_multi(a) and is_multi(b) and op[3] and op[5] and a._imol._phases != b._imol._phases:
+                mislinked.add(id(a._imol))
+            if is_multi(a) and is_multi(b) and (op[3] or op[5]) and a is not b:
+                detached.update(id(v) for v in getattr(a, '_streams', {}).values())
+        if k == 'unlink' and objs:
+            a = objs[op[1] % len(objs)]
+            if is_multi(a):
+                detached.update(id(v) for v in getattr(a, '_streams', {}).values())
         try:
             r = act()
         except Exception:
             continue
-        k = op[0]
         if k in ('new', 'proxy', 'flow_proxy', 'copy', 'view') and r is not None and not any(r is x for x in objs):
             src = None if k == 'new' else op[1] % len(objs)
             objs.append(r)
@@ -629,6 +743,8 @@ def oracle(case):
     return None
 
 def finding_key(case, msg):
+    if case.get('strict_links'):
+        return DETACHED_KEY if any(o[0] == 'view' for o in case['ops']) else ADM_KEY
     has_proxy = any(o[0] == 'proxy' for o in case['ops'])
     return 'C14:stale-read' + (':proxy' if has_proxy else '') if 'stale' in msg else 'C14:' + msg.split(':')[0]
 
